@@ -236,7 +236,20 @@ def c34(ck, F, tier):
     guarded(ck, rn.table_cycle, F)
 
 
-PROPS = {"C08": c08, "C34": c34, "C21": c21, "C05": c05, "C28": c28, "C10": c10, "C29": c29, "C17": c17, "C01": c01, "C02": c02, "C03": c03, "C04": c04, "C23": c23, "C26": c26}
+def c22(ck, F, tier):
+    import rules_quote as rq
+    ck.explanation = (
+        "Static decision of the sheet-name quoting clause over all Unicode scalar values: the per-character body of "
+        "name_needs_quoting, the loop body of Lexer::consume_identifier and the first-character dispatch of Lexer::next_token "
+        "are interpreted from the MIR (finite-domain path interpreter, concrete char predicates); code points are partitioned "
+        "by everything those bodies can observe, one representative per class. Obligation: a character allowed by "
+        "is_valid_sheet_name at which the lexer's unquoted path stops (or cannot start) makes the name quoted. Plus: the "
+        "quote-doubling escape and the lexer's un-escape are inverse constants. The column-letter arithmetic is not decided.")
+    ck.rule("QUOTE", "characters the lexer cannot read unquoted trigger quoting (all code points by class)", floor=40, exhaustive=True)
+    guarded(ck, rq.quote_rule, F)
+
+
+PROPS = {"C08": c08, "C22": c22, "C34": c34, "C21": c21, "C05": c05, "C28": c28, "C10": c10, "C29": c29, "C17": c17, "C01": c01, "C02": c02, "C03": c03, "C04": c04, "C23": c23, "C26": c26}
 
 
 def run(pid, tier):
